@@ -1052,6 +1052,18 @@ Proof.
   rewrite match_version_ok by assumption. rewrite rstrip0_text by assumption. reflexivity.
 Qed.
 
+Lemma Forall_chars_range : forall lo hi (l : list Z),
+  forallb (fun c => (lo <=? c) && (c <=? hi)) l = true -> Forall (fun c => lo <= c <= hi) l.
+Proof.
+  intros lo hi l H. apply Forall_forall. intros c Hc. rewrite forallb_forall in H. specialize (H c Hc).
+  apply andb_true_iff in H. destruct H as [H1 H2]. apply Z.leb_le in H1. apply Z.leb_le in H2. lia.
+Qed.
+
+Lemma ascii_text_chk : forall l, forallb (fun c => (1 <=? c) && (c <=? 127)) l = true -> ascii_text l.
+Proof.
+  intros l H. apply Forall_chars_range in H. unfold ascii_text. eapply Forall_impl; [|eassumption]. cbv beta. intros; lia.
+Qed.
+
 Lemma ex_sver_semver :
   sver_header_valid 3 4 17 0 256 /\ ascii_text (chars "SC&MP/SpiNNaker") /\ digits (chars "2") /\ digits (chars "10") /\
   digits (chars "0") /\ labels_ok (chars "-dev") /\
@@ -1059,8 +1071,11 @@ Lemma ex_sver_semver :
                                                                     (chars "2") (chars "10") (chars "0") (chars "-dev"))))
   = Some [[3; 4; 17; 0; 2; 10; 0; 256; 1459253424]; chars "SC&MP/SpiNNaker"; chars "-dev"].
 Proof.
-  unfold sver_header_valid, is_byte, ascii_text, digits, labels_ok, ascii_text.
-  repeat split; try lia; try discriminate; try (vm_compute; repeat constructor; lia).
-  - vm_compute. intuition discriminate.
-  - vm_compute. lia.
+  split; [unfold sver_header_valid, is_byte; lia|].
+  split; [apply ascii_text_chk; reflexivity|].
+  split; [split; [discriminate|apply Forall_chars_range; reflexivity]|].
+  split; [split; [discriminate|apply Forall_chars_range; reflexivity]|].
+  split; [split; [discriminate|apply Forall_chars_range; reflexivity]|].
+  split; [|vm_compute; reflexivity].
+  split; [apply ascii_text_chk; reflexivity|]. split; [vm_compute; intuition discriminate|vm_compute; lia].
 Qed.
